@@ -57,6 +57,8 @@ impl<'a> PrettyPrinter<'a> {
     }
 
     pub(super) fn convert_math(&'a self, ctx: Context, math: Math<'a>) -> ArenaDoc<'a> {
+        #[cfg(typstyle_verif)]
+        crate::verif::visit("math", math.to_untyped().span());
         if let Some(res) = self.check_disabled(math.to_untyped()) {
             return res;
         }
